@@ -151,9 +151,19 @@ where
         if compression_method == CompressionMethod::Bgzf {
             let mut decoder = MultiGzDecoder::new(src);
             let mut buf = [0; BCF_MAGIC_NUMBER.len()];
-            decoder.read_exact(&mut buf)?;
+            let mut len = 0;
 
-            if buf == BCF_MAGIC_NUMBER {
+            // A stream shorter than the magic number is not an error.
+            while len < buf.len() {
+                match decoder.read(&mut buf[len..]) {
+                    Ok(0) => break,
+                    Ok(n) => len += n,
+                    Err(e) if e.kind() == io::ErrorKind::Interrupted => {}
+                    Err(e) => return Err(e),
+                }
+            }
+
+            if buf[..len] == BCF_MAGIC_NUMBER {
                 return Ok(Format::Bcf);
             }
         }
